@@ -244,6 +244,200 @@ theorem bit_run (msg : List Byte) (k o n : Nat) (h : o + (k + 7) / 8 ≤ msg.len
     split <;> omega
   exact ⟨vs, _, hrun, hl, ha, by simp [stepField, ha]⟩
 
+/-! ### re-used instances: every operation sequence -/
+
+/-- coherence of an instance: it holds a representable value and its size slot is that value's size -/
+def Good {α : Type} (c : InstCodec α) (rep : α → Prop) (s : Inst α) : Prop :=
+  ∀ v, s.value = some v → rep v ∧ s.size = c.size v
+
+theorem int_inst_lawful (t : IntTy) : InstLawful (intInst t) (fun v => t.inRange v = true) :=
+  ⟨int_lawful t, fun _ _ => rfl⟩
+theorem bits_inst_lawful (k : Nat) : InstLawful (bitsInst k) (fun n => n < 256 ^ k) :=
+  ⟨bits_lawful k, fun _ _ => rfl⟩
+theorem addr_inst_lawful (k : Nat) : InstLawful (addrInst k) (fun a => a.length = k) :=
+  ⟨addr_lawful k, fun _ _ => rfl⟩
+theorem string_inst_lawful : InstLawful stringInst (fun v => (0 : Byte) ∉ v) :=
+  ⟨string_lawful, fun _ _ => rfl⟩
+theorem var_inst_lawful : InstLawful varInst (fun v => v.length ≤ 255) := by
+  refine ⟨var_lawful, ?_⟩
+  intro v hv
+  show (if v.length + 1 - 1 ≤ 255 then some ((v.length + 1 - 1).toUInt8 :: v) else none) =
+    (if v.length ≤ 255 then some (v.length.toUInt8 :: v) else none)
+  simp
+
+/-- reads never change an instance (no stale cache can build up) -/
+theorem observers_inert {α : Type} (c : InstCodec α) (s : Inst α) :
+    (s.step c .toBytes).1 = s ∧ (s.step c .size).1 = s ∧ (s.step c .value).1 = s := by
+  refine ⟨?_, rfl, ?_⟩
+  · simp only [Inst.step]
+    cases s.value with
+    | none => rfl
+    | some v => simp only; cases c.packI v s.size <;> rfl
+  · simp only [Inst.step]
+    cases s.value <;> rfl
+
+theorem good_new {α : Type} (c : InstCodec α) (rep : α → Prop) (v : Option α)
+    (hv : Canonical c rep (.construct v)) : Good c rep (Inst.new c v) := by
+  intro w hw
+  cases v with
+  | some v =>
+    simp only [Inst.new, Option.some.injEq] at hw
+    subst hw
+    exact ⟨hv, rfl⟩
+  | none =>
+    simp only [Inst.new] at hw
+    cases hd : c.dflt with
+    | none => rw [hd] at hw; simp at hw
+    | some d =>
+      rw [hd] at hw
+      simp only [Option.some.injEq] at hw
+      subst hw
+      simp only [Inst.new, hd]
+      exact ⟨hv d hd, by first | rfl | trivial⟩
+
+/-- coherence is kept by every canonical operation -/
+theorem good_step {α : Type} (c : InstCodec α) (rep : α → Prop) (h : InstLawful c rep)
+    (s : Inst α) (hs : Good c rep s) (op : Op α) (hop : Canonical c rep op) :
+    Good c rep (s.step c op).1 := by
+  cases op with
+  | construct v => exact good_new c rep v hop
+  | toBytes => rw [(observers_inert c s).1]; exact hs
+  | size => exact hs
+  | value => rw [(observers_inert c s).2.2]; exact hs
+  | unpack d =>
+    rcases hop with hnone | ⟨v, bs, rest, hv, hp, rfl⟩
+    · simp only [Inst.step, hnone]; exact hs
+    · obtain ⟨bs', hp', hsz, hu⟩ := h.1 v hv
+      rw [hp] at hp'
+      cases hp'
+      simp only [Inst.step, hu rest]
+      intro w hw
+      simp only [Option.some.injEq] at hw
+      subst hw
+      exact ⟨hv, hsz.symm⟩
+
+theorem good_run {α : Type} (c : InstCodec α) (rep : α → Prop) (h : InstLawful c rep)
+    (s : Inst α) (hs : Good c rep s) (ops : List (Op α)) (hops : ∀ op ∈ ops, Canonical c rep op) :
+    Good c rep (Inst.run c s ops).1 := by
+  induction ops generalizing s with
+  | nil => exact hs
+  | cons op rest ih =>
+    exact ih _ (good_step c rep h s hs op (hops op (by simp))) (fun o ho => hops o (by simp [ho]))
+
+/-- what a coherent instance reports -/
+theorem good_reports {α : Type} (c : InstCodec α) (rep : α → Prop) (h : InstLawful c rep)
+    (s : Inst α) (hs : Good c rep s) (v : α) (hv : s.value = some v) :
+    ∃ bs, c.pack v = some bs ∧ (s.step c .toBytes).2 = .bytes bs ∧
+      (s.step c .size).2 = .size bs.length ∧ (s.step c .value).2 = .value v := by
+  obtain ⟨hrep, hsz⟩ := hs v hv
+  obtain ⟨bs, hp, hlen, _⟩ := h.1 v hrep
+  refine ⟨bs, hp, ?_, ?_, ?_⟩
+  · simp only [Inst.step, hv, hsz, h.2 v hrep, hp]
+  · simp only [Inst.step, hsz, hlen]
+  · simp only [Inst.step, hv]
+
+/-- the value an instance holds after ANY operation sequence is the one constructed or
+successfully unpacked last -/
+theorem value_is_last_set {α : Type} (c : InstCodec α) (s : Inst α) (ops : List (Op α)) :
+    (Inst.run c s ops).1.value = ops.foldl (fun cur op => match op with
+      | .construct v => (Inst.new c v).value
+      | .unpack d => match c.unpack d with | some (v, _) => some v | none => cur
+      | _ => cur) s.value := by
+  induction ops generalizing s with
+  | nil => rfl
+  | cons op rest ih =>
+    simp only [Inst.run, List.foldl_cons]
+    rw [ih]
+    congr 1
+    cases op with
+    | construct v => rfl
+    | toBytes => rw [(observers_inert c s).1]
+    | size => rfl
+    | value => rw [(observers_inert c s).2.2]
+    | unpack d =>
+      simp only [Inst.step]
+      cases c.unpack d with
+      | none => rfl
+      | some r => rfl
+
+/-- **pack reflects the last value**: after ANY sequence of canonical operations on one
+instance, `to_bytes()` is the packed form of the value it holds — the value constructed or
+unpacked last (`value_is_last_set`) — never of an earlier one -/
+theorem pack_reflects_last_value {α : Type} (c : InstCodec α) (rep : α → Prop) (h : InstLawful c rep)
+    (v0 : Option α) (hv0 : Canonical c rep (.construct v0)) (ops : List (Op α))
+    (hops : ∀ op ∈ ops, Canonical c rep op) (v : α)
+    (hv : (Inst.run c (Inst.new c v0) ops).1.value = some v) :
+    ∃ bs, c.pack v = some bs ∧
+      ((Inst.run c (Inst.new c v0) ops).1.step c .toBytes).2 = .bytes bs ∧
+      ((Inst.run c (Inst.new c v0) ops).1.step c .value).2 = .value v := by
+  obtain ⟨bs, hp, hb, _, hval⟩ := good_reports c rep h _
+    (good_run c rep h _ (good_new c rep v0 hv0) ops hops) v hv
+  exact ⟨bs, hp, hb, hval⟩
+
+/-- **size is the packed length**, after any sequence of canonical operations (a single bit
+field excepted, as interpreted above: its size is judged at the cursor) -/
+theorem size_is_packed_length {α : Type} (c : InstCodec α) (rep : α → Prop) (h : InstLawful c rep)
+    (v0 : Option α) (hv0 : Canonical c rep (.construct v0)) (ops : List (Op α))
+    (hops : ∀ op ∈ ops, Canonical c rep op) (v : α)
+    (hv : (Inst.run c (Inst.new c v0) ops).1.value = some v) :
+    ∃ bs, ((Inst.run c (Inst.new c v0) ops).1.step c .toBytes).2 = .bytes bs ∧
+      ((Inst.run c (Inst.new c v0) ops).1.step c .size).2 = .size bs.length := by
+  obtain ⟨bs, _, hb, hs, _⟩ := good_reports c rep h _
+    (good_run c rep h _ (good_new c rep v0 hv0) ops hops) v hv
+  exact ⟨bs, hb, hs⟩
+
+/-- **unpack then pack**: whatever an instance held before (coherent or not), unpacking a buffer
+that starts with the packed form `b` of a representable value and packing again gives back
+exactly the consumed prefix `b`, with size `|b|` and that value -/
+theorem unpack_then_pack {α : Type} (c : InstCodec α) (rep : α → Prop) (h : InstLawful c rep)
+    (s : Inst α) (v : α) (b rest : List Byte) (hv : rep v) (hb : c.pack v = some b) :
+    ((s.step c (.unpack (b ++ rest))).1.step c .toBytes).2 = .bytes b ∧
+    ((s.step c (.unpack (b ++ rest))).1.step c .size).2 = .size b.length ∧
+    ((s.step c (.unpack (b ++ rest))).1.step c .value).2 = .value v := by
+  obtain ⟨bs, hp, hsz, hu⟩ := h.1 v hv
+  rw [hb] at hp
+  cases hp
+  have hstep : (s.step c (.unpack (b ++ rest))).1 = ⟨some v, b.length⟩ := by
+    simp only [Inst.step, hu rest]
+  rw [hstep]
+  refine ⟨?_, rfl, rfl⟩
+  simp only [Inst.step, ← hsz, h.2 v hv, hb]
+
+/-- the one place where the two slots can disagree, as the code has it: a length-prefixed value
+unpacked from a buffer SHORTER than its prefix promises packs with the stale prefix (outside the
+statement: the buffer does not start with a packed form) -/
+theorem var_truncated_witness :
+    ((({ value := none, size := 1 } : Inst (List Byte)).step varInst (.unpack [5, 0x41, 0x42])).1.step varInst .toBytes).2
+      = .bytes [5, 0x41, 0x42] ∧ varCodec.pack [0x41, 0x42] = some [2, 0x41, 0x42] := by
+  decide
+
+/-! #### bit array instance -/
+
+/-- position and content are independent: `unpack` then `next i` and `next i` then `unpack`
+leave the same instance — a bit field may be positioned before or after its byte is loaded -/
+theorem bit_position_unpack_commute (s : BitInst) (d : List Byte) (i : Nat) :
+    ((s.step (.unpack d)).1.step (.next i)).1 = ((s.step (.next i)).1.step (.unpack d)).1 := by
+  simp only [BitInst.step]
+  cases bitUnpack d <;> rfl
+
+/-- in either order the instance then reports bit `i` of the byte, the cursor size of position
+`i`, and packs to the byte -/
+theorem bit_inst_reports (s : BitInst) (b : Byte) (rest : List Byte) (i : Nat) :
+    (BitInst.run s [.unpack (b :: rest), .next i, .value, .size, .toBytes]).2 =
+      [.done, .nextIs (bitNext i), .value (b.toNat.testBit i), .size (bitSize i), .bytes [b]] ∧
+    (BitInst.run s [.next i, .unpack (b :: rest), .value, .size, .toBytes]).2 =
+      [.nextIs (bitNext i), .done, .value (b.toNat.testBit i), .size (bitSize i), .bytes [b]] := by
+  constructor <;> rfl
+
+/-- a constructor index is a position like any other (`BitArray(index=i)` then `unpack`) -/
+theorem bit_constructed_position (b : Byte) (rest : List Byte) (i : Nat) (s : BitInst) :
+    (BitInst.run s [.construct none i, .unpack (b :: rest), .value, .size]).2 =
+      [.done, .done, .value (b.toNat.testBit i), .size (bitSize i)] := rfl
+
+theorem bit_observers_inert (s : BitInst) :
+    (s.step .value).1 = s ∧ (s.step .size).1 = s ∧ (s.step .toBytes).1 = s := by
+  refine ⟨?_, rfl, ?_⟩ <;> (simp only [BitInst.step]; cases s.raw <;> rfl)
+
 /-! ### tie to the source: struct formats as the interpreter holds them (translator table) -/
 
 /-- every struct-backed class of data_types.py has the format and size the model gives it;
@@ -283,5 +477,10 @@ example : ipv4Codec.unpack [192, 168, 1, 2, 7] = some ([192, 168, 1, 2], 4) := b
 example : runFields [0xaa, 0x81, 0x02, 0x34, 0x12] (List.replicate 10 .bit ++ [.other 2]) ⟨1, 0⟩ =
     some ([.bitVal true, .bitVal false, .bitVal false, .bitVal false, .bitVal false, .bitVal false,
       .bitVal false, .bitVal true, .bitVal false, .bitVal true, .startsAt 3], ⟨5, 0⟩) := by decide
+
+/-- a re-used Short: pack, unpack another value, pack again -/
+example : (Inst.run (intInst .i16) (Inst.new (intInst .i16) (some 5))
+    [.toBytes, .unpack [0xfe, 0xff, 0x07], .toBytes, .size, .value]).2 =
+    [.bytes [5, 0], .done, .bytes [0xfe, 0xff], .size 2, .value (-2)] := by decide
 
 end PlumVerif.C19
